@@ -141,6 +141,14 @@ let run (path : string) =
        let k2 = Gauge.kf2_begin now benv m and k3 = Gauge.kf3_begin now benv m in
        if !dirty = "none" then (if k2 then dirty := "kf_C19_2" else if k3 then dirty := "kf_C19_3");
        if k2 then bump "kf:C19_2:met"; if k3 then bump "kf:C19_3:met";
+       (* the input-delimited sufficient condition of c19_program_safe, per program that is due *)
+       L.iteri (fun i (x : Gauge.ext) ->
+           if x.Gauge.x_active && BinInt.Z.ltb x.Gauge.x_next now then begin
+             let e = L.nth xenvs i in
+             let safe = Gauge.ext_safe e x in
+             bump (if safe then "program:safe-condition" else "program:outside-safe-condition");
+             if safe && Gauge.kf_C19_3 now e x then cmpf "program.safe_implies_no_overdraw" "true" "false"
+           end) m.Gauge.r_exts;
        (* the implementation's own share calculation for the allocation that is due: diff + share predicate *)
        Hashtbl.iter (fun i toks ->
            match toks with
